@@ -298,6 +298,9 @@ def chr_(x):
 
 
 def len_(x):
+  # objects of an environment model may have a *symbolic* length (e.g. what a model os.read() returned): they say so with __symlen__
+  f = getattr(type(x), '__symlen__', None)
+  if f is not None: return f(x)
   return len(x)
 
 
